@@ -153,7 +153,14 @@ def check(ctx):
     def refs_zero(a):
         return a.kind == "cmp" and a.op == "Eq" and is_const(0)(a.b) and all_fields(simplify(a.a))[-1:] == [N + ".refs"]
     FREE = Call(r"(std|alloc)::boxed::Box::from_raw", transitive=False)
-    for fid, short in ((L + "::Entry::remove", "remove"), ("<may_queue::mpsc_list_v1::Entry as std::ops::Drop>::drop", "entry-drop"), (L + "::Queue::pop", "pop"), (L + "::Queue::pop_if", "pop_if")):
+    # the instances are every function of the module that frees a node (F25: Queue::drop freed the stub without looking at its count)
+    NAMES = {L + "::Entry::remove": "remove", "<may_queue::mpsc_list_v1::Entry as std::ops::Drop>::drop": "entry-drop", L + "::Queue::pop": "pop", L + "::Queue::pop_if": "pop_if",
+             "<may_queue::mpsc_list_v1::Queue as std::ops::Drop>::drop": "queue-drop"}
+    freers = [(k, NAMES.get(k, k.rsplit("::", 1)[-1])) for k, g in sorted(ctx.prog.fns.items())
+              if (k.startswith(L + "::") or k.startswith("<" + L + "::")) and "{closure" not in k and ctx.an.sites(g, FREE, "must")]
+    if len(freers) < 5:
+        ctx.missing("R-EXIT", L, "refs/freers", "expected ≥5 functions that free a list node (remove, Entry::drop, pop, pop_if, Queue::drop), found %s" % [s for _, s in freers])
+    for fid, short in freers:
         f = ctx.fn("R-EXIT", fid, "refs/%s/free-only-at-zero" % short)
         if f is None: continue
         if not ctx.an.sites(f, FREE, "must") or not ctx.edges(f, refs_zero):
